@@ -655,6 +655,8 @@ class TerminalExpr(CalculusFunction):
                     ext         = domain.ext
                     domain      = domain.domain
                     coordinates = domain.coordinates
+                    if not isinstance(coordinates, (tuple, list, Tuple)):
+                        coordinates = (coordinates,)     # a 1-D patch has a single coordinate
                     if isinstance(domain, (NCube, NCubeInterior)):
                         bounds      = domain.min_coords if ext == -1 else domain.max_coords
                         J           = J.subs(coordinates[axis], bounds[axis])
@@ -688,6 +690,8 @@ class TerminalExpr(CalculusFunction):
                     ext         = domain.ext
                     domain      = domain.domain
                     coordinates = domain.coordinates
+                    if not isinstance(coordinates, (tuple, list, Tuple)):
+                        coordinates = (coordinates,)     # a 1-D patch has a single coordinate
                     if isinstance(domain, (NCube, NCubeInterior)):
                         bounds      = domain.min_coords if ext == -1 else domain.max_coords
                         J = J.subs(coordinates[axis], bounds[axis])
